@@ -52,10 +52,35 @@ def node_lit(n):
 
 
 def subgraph_lit(g):
-    if len(g.initializer) or len(g.sparse_initializer):
-        raise OutOfScope("subgraph with initializers")
-    return (f"(Graph {clist([i.name for i in g.input], cstr)} [] {clist([node_lit(n) for n in g.node])} "
-            f"{clist([o.name for o in g.output], cstr)})")
+    """a subgraph that owns initializers (Export/SubInits.v): g_inits = their names, and the Constant nodes the exporter
+    makes for them (make_node("Constant", [], [init.name], value=init)) in front of the nodes"""
+    if len(g.sparse_initializer):
+        raise OutOfScope("subgraph with sparse initializers")
+    consts = []
+    for i in g.initializer:
+        if onnx.external_data_helper.uses_external_data(i):
+            raise OutOfScope("external initializer")
+        if i.data_type in (TP.FLOAT, TP.INT64) and len(i.dims) <= 1 and nh.to_array(i).nbytes > 64:
+            raise OutOfScope("long rank-1 initializer (payload digested)")
+        consts.append(f'(Node "" "Constant" [] [{cstr(i.name)}] [("value", {M._tensor_attr_lit(i)})] [])')
+    return (f"(Graph {clist([i.name for i in g.input], cstr)} {clist([i.name for i in g.initializer], cstr)} "
+            f"{clist(consts + [node_lit(n) for n in g.node])} {clist([o.name for o in g.output], cstr)})")
+
+
+def nested_initializers(proto):
+    """the initializers owned by subgraphs, in the exporter's traversal order"""
+    out = []
+
+    def walk(nodes):
+        for n in nodes:
+            subs = [a for a in n.attribute if a.type == onnx.AttributeProto.GRAPH]
+            if n.op_type == "If" and len(subs) == 2:
+                subs = sorted(subs, key=lambda a: a.name != "then_branch")
+            for a in subs:
+                out.extend(a.g.initializer)
+                walk(a.g.node)
+    walk(proto.graph.node if isinstance(proto, onnx.ModelProto) else proto.node)
+    return out
 
 
 def graph_lit(proto):
@@ -344,6 +369,7 @@ def model_rename_sequence(proto, opts):
             at = list(n.attribute)
             eb, tb = (at[0].g, at[1].g) if at[0].name == "else_branch" else (at[1].g, at[0].g)
             for g in (tb, eb):
+                inits(g)
                 body(g.node)
                 assign(list(n.output), [o.name for o in g.output])
             return
@@ -375,6 +401,7 @@ def model_rename_sequence(proto, opts):
             assign(fins, list(n.input[2:]))
             if (has0 or b.input[0].name in used) and not use_cond:
                 remapped.add(cout)
+            inits(b)
             body(b.node)
             if use_cond:
                 assign([cin], [cout])
@@ -391,13 +418,16 @@ def model_rename_sequence(proto, opts):
         for x in n.input:
             ref(x)
 
-    for init in proto.graph.initializer:  # _translate_graph_body: the initializers first
-        if opts["skip_initializers"] and int(np.prod(list(init.dims) or [1])) > 4:
-            var(init.name)
-        elif opts["inline_const"] and inlinable_tensor(init):
-            consts.add(init.name)  # C13_02: recorded under the ONNX name
-        else:
-            var(init.name)
+    def inits(g):  # _translate_graph_body (main graph or subgraph): the initializers first
+        for init in getattr(g, "initializer", []):
+            if opts["skip_initializers"] and int(np.prod(list(init.dims) or [1])) > 4:
+                var(init.name)
+            elif opts["inline_const"] and inlinable_tensor(init):
+                consts.add(init.name)  # C13_02: recorded under the ONNX name
+            else:
+                var(init.name)
+
+    inits(proto.graph)
     body(proto.graph.node)
     for o in proto.graph.output:
         src(o.name)
@@ -433,8 +463,10 @@ def in_scope(case, opts):
         large = [i for i in proto.graph.initializer if int(np.prod(list(i.dims) or [1])) > 4]
         if not large and not VR.detect()["skip_wraps"]:
             raise OutOfScope("skip_initializers without a large initializer (known finding: indented source)")
-        if any(i.data_type not in (TP.FLOAT, TP.INT8) for i in large):
+        large_nested = [i for i in nested_initializers(proto) if int(np.prod(list(i.dims) or [1])) > 4]
+        if any(i.data_type not in (TP.FLOAT, TP.INT8) for i in large + large_nested):
             raise OutOfScope("skip_initializers: large initializer of a type generate_rand refuses")
+        large = large + large_nested
     vr = VR.detect()
     if opts["rename"] and is_model and proto.graph.initializer and not (vr["init_raw_key"] and vr["sig_renamed"]):
         raise OutOfScope("rename=True on a model with initializers (the twice-renamed Constant needs the mapper's state)")
@@ -499,17 +531,19 @@ def coq_body(items):
         lines.append(f"Definition g{k} : graph := {g}.")
         lines.append(f"Definition iv{k} : list (vname * attrv) := {iv}.")
         use_ops, inline = option_terms(opts)
-        lines.append(f"Definition m{k} := refuse_hazard {cbool(VR.detect()['refuse_hazard'])} g{k} (export_cf kwlist {pre} {ren} {infun} {use_ops} {inline} "
+        # Export/SubInits.v export_si = export_cf behind the treatment of initializers owned by subgraphs (the same term when no subgraph owns one)
+        lines.append(f"Definition m{k} := refuse_hazard {cbool(VR.detect()['refuse_hazard'])} g{k} (export_si kwlist {pre} {ren} {infun} {use_ops} {inline} "
                      f"{cbool(opts['skip_initializers'])} {fname} iv{k} g{k}).")
+        lines.append(f"Definition gd{k} : graph := Eval vm_compute in (strip_top false g{k}).")
         lines.append(f"Definition o{k} : option (func * list string) := {obs['func'] or 'None'}.")
         plain = OKB is not None and not (opts["use_operators"] or opts["inline_const"] or opts["skip_initializers"])
-        lines.append(f"Definition h{k} : bool := {OKB + ' kwlist ' + pre + ' ' + ren + ' ' + infun + ' true iv' + str(k) + ' g' + str(k) if plain else 'false'}.")
-        lines.append(f"Definition hn{k} : bool := {OKB + ' kwlist ' + pre + ' ' + ren + ' ' + infun + ' false iv' + str(k) + ' g' + str(k) if plain else 'false'}.")
+        lines.append(f"Definition h{k} : bool := {OKB + ' kwlist ' + pre + ' ' + ren + ' ' + infun + ' true iv' + str(k) + ' gd' + str(k) if plain else 'false'}.")
+        lines.append(f"Definition hn{k} : bool := {OKB + ' kwlist ' + pre + ' ' + ren + ' ' + infun + ' false iv' + str(k) + ' gd' + str(k) if plain else 'false'}.")
         lines.append(f"Definition rt{k} : bool * bool * bool := {'rt_class m' + str(k) if plain else '(false, false, false)'}.")
         skip_only = OKB is not None and opts["skip_initializers"] and not opts["inline_const"]
         lines.append(f"Definition hs{k} : bool := {'nested_skip_ops_okb kwlist ' + pre + ' ' + ren + ' ' + infun + ' true ' + use_ops + ' iv' + str(k) + ' g' + str(k) if skip_only else 'false'}.")
         ops_only = OKB is not None and opts["use_operators"] and not (opts["inline_const"] or opts["skip_initializers"])
-        lines.append(f"Definition ho{k} : bool := {'nested_ops_okb kwlist ' + pre + ' ' + ren + ' ' + infun + ' true ' + use_ops + ' iv' + str(k) + ' g' + str(k) if ops_only else 'false'}.")
+        lines.append(f"Definition ho{k} : bool := {'nested_ops_okb kwlist ' + pre + ' ' + ren + ' ' + infun + ' true ' + use_ops + ' iv' + str(k) + ' gd' + str(k) if ops_only else 'false'}.")
     n = len(items)
     lines.append(f"Eval vm_compute in (disagreeing_cf 0 {clist([f'(m{k}, o{k})' for k in range(n)])}).")
     lines.append(f"Eval vm_compute in {clist([f'h{k}' for k in range(n)])}.")
@@ -522,7 +556,7 @@ def coq_body(items):
 
 
 OKB = "nested_okb"
-REQUIRES = ["OV.Gen.ExportTables", "OV.Export.Cleanup", "OV.Export.Unique", "OV.Graph.Syntax", "OV.Script.Syntax", "OV.Export.Emit", "OV.Export.EmitCF", "OV.Export.RoundTripClass", "OV.Export.EmitOpts", "OV.Export.AttrNames"]
+REQUIRES = ["OV.Gen.ExportTables", "OV.Export.Cleanup", "OV.Export.Unique", "OV.Graph.Syntax", "OV.Script.Syntax", "OV.Export.Emit", "OV.Export.EmitCF", "OV.Export.RoundTripClass", "OV.Export.EmitOpts", "OV.Export.AttrNames", "OV.Export.SubInits"]
 
 
 # ----------------------------------------------------------------------------------------------- hand-made nested models
